@@ -52,10 +52,11 @@ let show_dump c =
   let regs = List.sort compare (List.map (fun (v, s) -> show_verid v ^ ">" ^ hex_of_bytes s) c.c_regions) in
   let lat = List.sort compare (List.map (fun (id, (v, cf)) -> Printf.sprintf "%d>%d,%d" (ni id) (ni v) (ni cf)) c.c_latest) in
   let se = List.sort compare (List.filter_map (fun (id, e) -> if ni e = 0 then None else Some (Printf.sprintf "%d>%d" (ni id) (ni e))) c.c_sepochs) in
-  jn ents ^ "\t" ^ jn regs ^ "\t" ^ jn lat ^ "\t" ^ jn se
+  let tb = List.sort compare (List.map (fun x -> string_of_int (ni x)) c.c_tomb) in
+  jn ents ^ "\t" ^ jn regs ^ "\t" ^ jn lat ^ "\t" ^ jn se ^ "\t" ^ jn (List.sort (fun a b -> compare (int_of_string a) (int_of_string b)) tb)
 
 (* rebuild a model state from an implementation dump (used to resynchronise after a mismatch) *)
-let parse_dump ents regs lat ses =
+let parse_dump ents regs lat ses tbs =
   let ent s = match split_on ',' s with
     | [id; ver; conf; st; en; work; exp; reason; fl; peers; eps; bk] ->
         let fl = int_of_string fl in
@@ -71,7 +72,7 @@ let parse_dump ents regs lat ses =
     | _ -> raise (Parse s) in
   let l f s = if s = "_" then [] else List.map f (split_on ';' s) in
   let sp s = match split_on '>' s with [id; e] -> (nn (int_of_string id), nn (int_of_string e)) | _ -> raise (Parse s) in
-  { c_sorted = l ent ents; c_regions = l reg regs; c_latest = l la lat; c_sepochs = l sp ses }
+  { c_sorted = l ent ents; c_regions = l reg regs; c_latest = l la lat; c_sepochs = l sp ses; c_tomb = l (fun x -> nn (int_of_string x)) tbs }
 
 (* ---- PD oracle from the logged Q lines ---- *)
 let show_req q = match q with
@@ -136,7 +137,12 @@ let run_op (c : cache) (op : string) (args : string list) (qs : string list arra
        | Some r -> ("ok", upd_entry c r (set_flags (fun x -> x.r_reload || bits land 1 <> 0) (fun x -> x.r_pending || bits land 4 <> 0)
                                            (fun x -> x.r_ready || bits land 8 <> 0)), 0)
        | None -> ("model: no such entry", c, 0))
-  | "clear" -> ("ok", { empty_cache with c_sepochs = c.c_sepochs }, 0)
+  | "clear" -> ("ok", { empty_cache with c_sepochs = c.c_sepochs; c_tomb = c.c_tomb }, 0)
+  | "reresolve" ->
+      let c1 = if a 0 = "_" then c else
+        List.fold_left (fun c x -> match split_on ':' x with
+          | [sid; rm] -> re_resolve c (nn (int_of_string sid)) (rm = "1") | _ -> raise (Parse x)) c (split_on '/' (a 0)) in
+      ("ok", c1, 0)
   | "lbucket" ->
       fin (find_region_by_key pd budget fuel t0 c (bytes_of_hex (a 0)) false)
         (fun r -> match r with
@@ -234,13 +240,13 @@ let () =
     | "Q" :: rest -> qs := rest :: !qs
     | "R" :: r :: _ -> result := r
     | "R" :: [] -> result := ""
-    | "D" :: ents :: regs :: lat :: ses :: _ ->
-        let impl_dump = ents ^ "\t" ^ regs ^ "\t" ^ lat ^ "\t" ^ ses in
+    | "D" :: ents :: regs :: lat :: ses :: tbs :: _ ->
+        let impl_dump = ents ^ "\t" ^ regs ^ "\t" ^ lat ^ "\t" ^ ses ^ "\t" ^ tbs in
         (match !cur_op with
          | None ->
              if show_dump !cache <> impl_dump then begin
                report "MISMATCH-STATE" "-" "-" [] ["impl=" ^ impl_dump; "model=" ^ show_dump !cache];
-               cache := parse_dump ents regs lat ses end
+               cache := parse_dump ents regs lat ses tbs end
          | Some (idx, op, args) ->
              incr cases;
              let qarr = Array.of_list (List.rev !qs) in
@@ -260,7 +266,7 @@ let () =
                 (try last_ctx := Some (parse_verid (List.nth args 0), parse_peer (List.nth (split_on ' ' !result) 1)) with _ -> last_ctx := None)
               else if op <> "ctx" then last_ctx := None);
              if ok_res && ok_pd && mdump = impl_dump then cache := c1
-             else cache := (try parse_dump ents regs lat ses with _ -> c1);
+             else cache := (try parse_dump ents regs lat ses tbs with _ -> c1);
              cur_op := None)
     | _ -> ());
   Printf.printf "STATS\tcases=%d\tmismatches=%d\tseqs=%d\tbadseqs=%d\treplies=%d\n" !cases !mism !seqs !badseq !replies;
